@@ -45,11 +45,11 @@ const (
 	cfHost         = "registry.test"
 	cfRepo         = "foo/bar"
 	cfTag          = "tag1"
-	cfStart        = "start0"
-	cfThreshold    = 128 * 1024 // ociclient's in-memory threshold for digest-less tag reads (unexported there)
-	cfErrLimit     = 8 * 1024   // ociclient's error body size limit (unexported there)
-	cfDefaultChunk = 64 * 1024  // ociclient's default chunk size (unexported there)
-	cfClamp        = 1 << 30    // numbers are logged clamped to +-2^30 (TLC integers are 32 bits wide)
+	cfStart        = "n00-start" // the startAfter argument (as long as an item name)
+	cfThreshold    = 128 * 1024  // ociclient's in-memory threshold for digest-less tag reads (unexported there)
+	cfErrLimit     = 8 * 1024    // ociclient's error body size limit (unexported there)
+	cfDefaultChunk = 64 * 1024   // ociclient's default chunk size (unexported there)
+	cfClamp        = 1 << 30     // numbers are logged clamped to +-2^30 (TLC integers are 32 bits wide)
 	cfMaxAlloc     = 1 << 29
 	cfEndlessCap   = 4 << 20 // an "endless" body fails after this many bytes
 	cfNetErr       = -1
@@ -78,29 +78,31 @@ func (n cfNum) val(unit int64) int64 { return n.T*unit + n.K }
 
 // cfResp is an abstract response (see OciClientFaults.tla).
 type cfResp struct {
-	Code  int               `json:"code"`
-	Loc   string            `json:"loc"`
-	Rf    string            `json:"rf"`
-	Ra    int64             `json:"ra"`
-	Rb    int64             `json:"rb"`
-	Cl    cfNum             `json:"cl"`
-	Dig   string            `json:"dig"`
-	Halg  string            `json:"halg"`
-	Hcont string            `json:"hcont"`
-	Link  string            `json:"link"`
-	Ctype string            `json:"ctype"`
-	Mf    string            `json:"mf"`
-	Mv    cfNum             `json:"mv"`
-	Crf   string            `json:"crf"`
-	Crtot int64             `json:"crtot"`
-	Body  string            `json:"body"`
-	Bcont string            `json:"bcont"`
-	Bend  string            `json:"bend"`
-	Items cfNum             `json:"items"`
-	Ecode string            `json:"ecode"`         // the OCI error code an "errjson" body carries ("" = NAME_UNKNOWN)
-	MvT   int64             `json:"mvt,omitempty"` // (in logged responses) mv was "huge": T, K of the scenario's number
-	MvK   int64             `json:"mvk,omitempty"`
-	Raw   map[string]string `json:"raw,omitempty"` // hex-encoded concrete values overriding the rendering of a class
+	Code   int               `json:"code"`
+	Loc    string            `json:"loc"`
+	Rf     string            `json:"rf"`
+	Ra     int64             `json:"ra"`
+	Rb     int64             `json:"rb"`
+	Cl     cfNum             `json:"cl"`
+	Dig    string            `json:"dig"`
+	Halg   string            `json:"halg"`
+	Hcont  string            `json:"hcont"`
+	Link   string            `json:"link"`
+	Ctype  string            `json:"ctype"`
+	Mf     string            `json:"mf"`
+	Mv     cfNum             `json:"mv"`
+	Crf    string            `json:"crf"`
+	Crtot  int64             `json:"crtot"`
+	Body   string            `json:"body"`
+	Bcont  string            `json:"bcont"`
+	Bend   string            `json:"bend"`
+	Items  cfNum             `json:"items"`
+	Inames string            `json:"inames"`        // how a listing page names its items: fresh | repeat | lastfirst | back | start (see cfNames)
+	Auth   string            `json:"auth"`          // WWW-Authenticate: none | bearer | basic
+	Ecode  string            `json:"ecode"`         // the OCI error code an "errjson" body carries ("" = NAME_UNKNOWN)
+	MvT    int64             `json:"mvt,omitempty"` // (in logged responses) mv was "huge": T, K of the scenario's number
+	MvK    int64             `json:"mvk,omitempty"`
+	Raw    map[string]string `json:"raw,omitempty"` // hex-encoded concrete values overriding the rendering of a class
 }
 
 type cfCall struct {
@@ -310,7 +312,40 @@ func cfRaw(r *cfResp, key string) (string, bool) {
 
 func cfItemName(k, j int) string { return fmt.Sprintf("n%02d-%05d", k, j) }
 
-func cfListJSON(call string, k int, n int) []byte {
+// cfNames: the item names of a listing page of n items, the k-th response.  fresh: names no other page has;
+// repeat: the previous page once more; lastfirst: the previous page's last item, then fresh ones; back: the
+// previous page backwards; start: the caller's startAfter argument first (else like lastfirst).
+func cfNames(class string, k, n int, prev []string, start bool) []string {
+	names := make([]string, n)
+	for j := range names {
+		names[j] = cfItemName(k, j)
+	}
+	if n == 0 {
+		return names
+	}
+	switch class {
+	case "repeat":
+		copy(names, prev)
+	case "back":
+		for j := 0; j < n && j < len(prev); j++ {
+			names[j] = prev[len(prev)-1-j]
+		}
+	case "start":
+		if start {
+			names[0] = cfStart
+		} else if len(prev) > 0 {
+			names[0] = prev[len(prev)-1]
+		}
+	case "lastfirst":
+		if len(prev) > 0 {
+			names[0] = prev[len(prev)-1]
+		}
+	}
+	return names
+}
+
+func cfListJSON(call string, names []string) []byte {
+	n := len(names)
 	var buf bytes.Buffer
 	switch call {
 	case "Tags":
@@ -326,9 +361,9 @@ func cfListJSON(call string, k int, n int) []byte {
 		}
 		if call == "Referrers" {
 			fmt.Fprintf(&buf, `{"mediaType":"application/vnd.oci.image.manifest.v1+json","digest":"%s","size":%d,"artifactType":"x/%s"}`,
-				cfCat.digOf["c"]["sha256"], j, cfItemName(k, j))
+				cfCat.digOf["c"]["sha256"], j, names[j])
 		} else {
-			buf.WriteString(`"` + cfItemName(k, j) + `"`)
+			buf.WriteString(`"` + names[j] + `"`)
 		}
 	}
 	buf.WriteString(`]}`)
@@ -337,6 +372,14 @@ func cfListJSON(call string, k int, n int) []byte {
 
 // cfRender turns abstract response r, the k-th of the scenario, into header, content length and body.
 func cfRender(r *cfResp, k int, call string) (http.Header, int64, *cfBody, int64) {
+	h, cl, body, items, _ := cfRenderL(r, k, call, nil, false)
+	return h, cl, body, items
+}
+
+// cfRenderL: prev are the item names of the previous listing page, start whether the caller gave a startAfter
+// argument; also returns the names of this page's items (nil if it is no listing).
+func cfRenderL(r *cfResp, k int, call string, prev []string, start bool) (http.Header, int64, *cfBody, int64, []string) {
+	var names []string
 	h := http.Header{}
 	set := func(key, class, def string, rawKey string) {
 		key = http.CanonicalHeaderKey(key)
@@ -406,6 +449,12 @@ func cfRender(r *cfResp, k int, call string) (http.Header, int64, *cfBody, int64
 	case "rand":
 		set("Link", r.Link, "?", "link")
 	}
+	switch r.Auth {
+	case "bearer":
+		h["Www-Authenticate"] = []string{`Bearer realm="https://auth.example/token",service="registry.test",scope="repository:foo/bar:pull,push"`}
+	case "basic":
+		h["Www-Authenticate"] = []string{`Basic realm="registry"`}
+	}
 	switch r.Ctype {
 	case "json":
 		set("Content-Type", r.Ctype, "application/json", "ctype")
@@ -449,7 +498,8 @@ func cfRender(r *cfResp, k int, call string) (http.Header, int64, *cfBody, int64
 		case "blob":
 			body.data = cfCat.bytes[r.Bcont]
 		case "list":
-			body.data = cfListJSON(call, k, int(items))
+			names = cfNames(r.Inames, k, int(items), prev, start)
+			body.data = cfListJSON(call, names)
 		case "wszero":
 			switch k % 3 {
 			case 0:
@@ -466,7 +516,7 @@ func cfRender(r *cfResp, k int, call string) (http.Header, int64, *cfBody, int64
 		case "wserr":
 			body.data = []byte(`{"repositories":"x","tags":7,"manifests":{"a":1}}`)
 		case "trunc":
-			full := cfListJSON(call, k, 3)
+			full := cfListJSON(call, cfNames("fresh", k, 3, nil, false))
 			body.data = full[:len(full)/2]
 		case "garbage":
 			body.data = []byte("\x00\xff\xfe<html>not json</html>")
@@ -489,7 +539,7 @@ func cfRender(r *cfResp, k int, call string) (http.Header, int64, *cfBody, int64
 		case "empty", "":
 		}
 	}
-	return h, cl, body, items
+	return h, cl, body, items, names
 }
 
 // ---------------------------------------------------------------- the scripted transport
@@ -505,7 +555,9 @@ type cfTransport struct {
 	served   int // responses served (also numbers them: the k-th response of the scenario)
 	call     string
 	wantDig  string
-	lastItem map[string]int // last item name of a listing response -> its number
+	lastItem map[string]int // last item name of a listing response -> its number (of the latest page ending with it)
+	prev     []string       // item names of the previous listing page
+	start    bool           // the call in progress has a startAfter argument
 	exch     []cfExchange
 	stuck    chan struct{}
 	overrun  int
@@ -563,15 +615,12 @@ func (t *cfTransport) classify(req *http.Request) ev {
 		}
 	}
 	if v, ok := qs["last"]; ok {
-		switch {
-		case v[0] == cfStart:
+		if k, ok := t.lastItem[v[0]]; ok {
+			q["last"] = k
+		} else if v[0] == cfStart {
 			q["last"] = -1
-		default:
-			if k, ok := t.lastItem[v[0]]; ok {
-				q["last"] = k
-			} else {
-				q["last"] = -3
-			}
+		} else {
+			q["last"] = -3
 		}
 	}
 	if v, ok := qs["digest"]; ok {
@@ -641,9 +690,10 @@ func (t *cfTransport) RoundTrip(req *http.Request) (*http.Response, error) {
 		t.mu.Unlock()
 		return nil, errCfNet
 	}
-	h, cl, body, items := cfRender(&r, k, t.call)
-	if r.Body == "list" && items > 0 {
-		t.lastItem[cfItemName(k, int(items)-1)] = k
+	h, cl, body, items, names := cfRenderL(&r, k, t.call, t.prev, t.start)
+	if len(names) > 0 {
+		t.lastItem[names[len(names)-1]] = k
+		t.prev = names
 	}
 	blen := int64(len(body.data))
 	bcont := "-"
@@ -720,7 +770,7 @@ func (c *cfCounting) Close() error { return c.rc.Close() }
 func cfLogResp(r *cfResp, cl, blen int64, bcont string, items int64, mv int64) ev {
 	e := ev{"code": r.Code, "loc": r.Loc, "rf": r.Rf, "ra": cfClampN(r.Ra), "rb": cfClampN(r.Rb), "cl": cfClampN(cl), "dig": r.Dig,
 		"halg": r.Halg, "hcont": r.Hcont, "link": r.Link, "ctype": r.Ctype, "mf": r.Mf, "mv": cfClampN(mv), "crf": r.Crf,
-		"crtot": cfClampN(r.Crtot), "body": r.Body, "blen": blen, "bcont": bcont, "bend": r.Bend, "items": items, "ecode": r.Ecode}
+		"crtot": cfClampN(r.Crtot), "body": r.Body, "blen": blen, "bcont": bcont, "bend": r.Bend, "items": items, "ecode": r.Ecode, "inames": r.Inames, "auth": r.Auth}
 	if r.Bend == "" {
 		e["bend"] = "eof"
 	}
@@ -797,6 +847,7 @@ func (rn *cfRunner) run(id int, s *cfScenario) {
 		c := c
 		tr.mu.Lock()
 		tr.call = c.Name
+		tr.start = c.Start
 		tr.exch = nil
 		tr.mu.Unlock()
 		content := cfCat.bytes["c"]
@@ -877,7 +928,8 @@ func (rn *cfRunner) run(id int, s *cfScenario) {
 				setDesc(reg.PushManifest(ctx, cfRepo, tag, cfCat.bytes["c"], mt))
 			case "PushBlob":
 				d := ociregistry.Descriptor{Digest: wantDigest, Size: int64(len(content)), MediaType: "application/octet-stream"}
-				setDesc(reg.PushBlob(ctx, cfRepo, d, bytes.NewReader(content)))
+				// the content is streamed from a plain io.Reader (not a bytes/strings reader net/http could rewind)
+				setDesc(reg.PushBlob(ctx, cfRepo, d, struct{ io.Reader }{bytes.NewReader(content)}))
 			case "PushBlobChunked":
 				setWriter(reg.PushBlobChunked(ctx, cfRepo, c.Hint))
 			case "Resume":
@@ -1024,6 +1076,10 @@ func cfAlnum(rnd *rand.Rand) string {
 
 func cfPick(rnd *rand.Rand, xs ...string) string { return xs[rnd.Intn(len(xs))] }
 
+// cfOddCodes: statuses outside the success path, the ones clients special-case included.
+var cfOddCodes = []int{100, 101, 102, 103, 199, 400, 401, 401, 402, 403, 404, 405, 406, 407, 408, 409, 410, 411, 412, 413, 414, 415, 416, 417, 417, 418,
+	421, 422, 423, 424, 425, 426, 428, 429, 431, 451, 500, 501, 502, 503, 504, 505, 506, 507, 508, 510, 511, 599, 0, 600, 999}
+
 // cfErrCodes: every standard OCI error code (taken from the package under test), and some that are none.
 var cfErrCodes = []string{
 	ociregistry.ErrBlobUnknown.Code(), ociregistry.ErrBlobUploadInvalid.Code(), ociregistry.ErrBlobUploadUnknown.Code(),
@@ -1050,9 +1106,12 @@ func cfRandResp(rnd *rand.Rand, call string) cfResp {
 	case x < 62:
 		r.Code = []int{200, 201, 202, 204, 206, 203, 226}[rnd.Intn(7)]
 	case x < 72:
-		r.Code = []int{301, 302, 303, 307, 308, 300, 304, 305}[rnd.Intn(8)]
+		r.Code = []int{301, 302, 303, 307, 308, 300, 304, 305, 306}[rnd.Intn(9)]
 	case x < 96:
-		r.Code = []int{100, 101, 199, 400, 401, 403, 404, 405, 416, 429, 451, 500, 502, 503, 599, 0, 600, 999}[rnd.Intn(18)]
+		r.Code = cfOddCodes[rnd.Intn(len(cfOddCodes))]
+		if r.Code == 401 || rnd.Intn(10) == 0 {
+			r.Auth = cfPick(rnd, "bearer", "basic", "none")
+		}
 	default:
 		r.Code = cfNetErr
 	}
@@ -1139,6 +1198,7 @@ func cfRandResp(rnd *rand.Rand, call string) cfResp {
 		}
 	case "list":
 		r.Items = cfNum{K: []int64{0, 1, 2, 3, 4, 999, 1000, 1001, 2000}[rnd.Intn(9)]}
+		r.Inames = cfPick(rnd, "fresh", "fresh", "repeat", "lastfirst", "back", "start")
 	case "errjson":
 		r.Ecode = cfErrCodes[rnd.Intn(len(cfErrCodes))]
 	case "rand":
@@ -1184,8 +1244,9 @@ func cfNearFine(rnd *rand.Rand, call string) cfResp {
 		}
 	case "Repositories", "Tags", "Referrers":
 		r.Body = "list"
-		r.Items = cfNum{K: []int64{0, 1, 2, 3, 999, 1000, 1001}[rnd.Intn(7)]}
+		r.Items = cfNum{K: []int64{0, 1, 1, 2, 2, 3, 999, 1000, 1001}[rnd.Intn(9)]}
 		r.Link = cfPick(rnd, "none", "ok")
+		r.Inames = cfPick(rnd, "fresh", "repeat", "lastfirst", "back", "start")
 	}
 	copyRaw := func(keys ...string) {
 		for _, k := range keys {
